@@ -26,13 +26,14 @@ Init == st = InitState /\ A = AInit /\ h = <<>>
 
 Log(op) == h' = Append(h, op)
 
-\* watermarks the protocol allows: none, or as high as possible - strictly below every
-\* held snapshot, or the visible seqno when no snapshot is held
+\* watermarks the protocol allows: none, or as high as possible - at most the oldest held
+\* snapshot (a reader at S is served by the newest version / entry with seqno < S, which a
+\* watermark of S keeps), one below it, or the visible seqno when no snapshot is held
 \* (with no snapshot held a watermark above every seqno ever issued is legal too - the
 \* repository's own tests pass 1_000 - and makes maintenance drop every older version)
 WChoices ==
     {0} \cup (IF st.snaps = {} THEN {st.vis, Top}
-             ELSE IF Min(st.snaps) = 0 THEN {} ELSE {Min(st.snaps) - 1})
+             ELSE {Min(st.snaps)} \cup (IF Min(st.snaps) = 0 THEN {} ELSE {Min(st.snaps) - 1}))
 
 \* the value written is a function of the seqno, so that an overwritten value always
 \* differs from the one that replaced it without multiplying the branching
